@@ -97,8 +97,11 @@ META.update({
         "steps (own frequency, periodicity) and multi-row variables. " + PROOF_NOTE)),
     'C16': dict(level='other', assumptions=['A2', 'A3', 'A5', 'A6'], explanation=(
         "proved: ScaledAsset.setup_optim_problem LP data for bases with one mapping row per variable. The step from the LP data to 'behaves like the "
-        "base with capacities x s/S' is A6 + bounded scenarios. StructuredAsset is not under contract: bounded (value vs flat portfolio, balance, nodal "
-        "prices, wrapped objects unchanged). " + PROOF_NOTE)),
+        "base with capacities x s/S' is A6 + bounded scenarios. StructuredAsset.setup_optim_problem from the real source: inner set-up on clipped "
+        "windows / the given grid / external nodes skipped, wrapped assets get their own window back (also when the inner set-up raises), vectors untouched, "
+        "all variables assigned to the structured asset, rows at internal nodes renamed and typed 'i' (loop over the distinct nodes under an invariant; "
+        "precondition: no wrapped node is named like the internal form of another), nodal record renamed, costs_only. Bounded: value vs flat portfolio, "
+        "balance, nodal prices; scaled asset over storage / must-take / load / structured bases incl. bases with their own window. " + PROOF_NOTE)),
 })
 
 from . import c06  # noqa
